@@ -95,7 +95,7 @@ def observe(d, name, programs, builds=BUILDS, jobs=8):
         if a.get("front") != r.get("front"):
             tool_failure(f"ast-dump and run-programs disagree on acceptance of {a.get('origin')}: {a.get('front')} vs {r.get('front')}")
         row = {"id": a["id"], "origin": a["origin"], "entry": a["entry"], "front": a["front"],
-               "mods": a.get("mods", {}), "builds": {}}
+               "mods": a.get("mods", {}), "regions": a.get("regions", []), "builds": {}}
         for b, v in r.get("builds", {}).items():
             nb = {"status": v.get("status", "?")}
             for k in ("wasm", "ts"):
@@ -113,12 +113,16 @@ def judge(d, name, rows, lib, budget, workers=8, timeout=2400, profile=False):
     write_ndjson(tr, rows)
     with open(lp, "w") as f:
         json.dump(lib, f)
-    kn = ",".join(sorted(k.get("region", "") for k in known() if k.get("region")))
+    kn = "," + ",".join(sorted(k.get("region", "") for k in known() if k.get("region"))) + ","
     res = tlc("SemTrace", "SemTrace.cfg", env={"TRACE": tr, "LIB": lp, "BUDGET": budget, "KNOWN": kn, "PROFILE": "1" if profile else "0"},
               workers=workers, timeout=timeout, tag=f"c01-{name}", extra=["-continue"], xmx="12g")
     verdicts = {}
-    for v in behaviours_from(res, "RESULT"):
-        verdicts[v["id"]] = v
+    try:
+        for v in behaviours_from(res, "RESULT"):
+            verdicts[v["id"]] = v
+    except (ValueError, KeyError) as e:
+        log(res.out[-2000:])
+        tool_failure(f"cannot read the verdicts printed by SemTrace.tla: {e}")
     return verdicts, res
 
 
@@ -183,7 +187,7 @@ class Tally:
                 self.runs_compared += nruns
                 if v["why"] == "ts-differs":
                     self.ts_differs += 1
-                if len(self.samples) < 4 and (self.judged % 7 == 1):
+                if len(self.samples) < 6 and src["ok"] == 1:      # the first accepted run of every source
                     w = next((b["wasm"] for b in row["builds"].values() if "wasm" in b), None)
                     self.samples.append({"origin": row["origin"], "nodes": v["n"], "lines": len(w["out"]) if w else 0,
                                          "first_lines": (w["out"][:3] if w else []), "end": w["end"] if w else None})
@@ -213,6 +217,22 @@ def check_group(tally, d, source, name, programs, budget, builds=BUILDS, profile
     if len(verdicts) != len(rows):
         log(res.out[-4000:])
         tool_failure(f"SemTrace.tla judged {len(verdicts)} of {len(rows)} programs of group {name}: {res.error or res.violated}")
+    # localisation of a deviation to the loop optimisations: observe the deviating programs again with the
+    # build that has every optimisation but those (opt:27) and let the acceptor judge them with that run
+    again = [r["id"] for r in rows if verdicts[r["id"]]["verdict"] == "violation" and verdicts[r["id"]]["why"] == "run differs"]
+    if again and 27 not in builds and len(again) <= 40:
+        sub = [dict(p) for p in programs if p["id"] in again]
+        rows2, lib2, recs2 = observe(d, name + "-loc", sub, sorted(set(builds) | {27}))
+        verdicts2, res2 = judge(d, name + "-loc", rows2, lib2, budget, workers=workers, profile=profile)
+        if len(verdicts2) == len(rows2):
+            for old_id, r2, rec2 in zip(again, rows2, recs2):
+                v2 = dict(verdicts2[r2["id"]])
+                v2["id"] = old_id
+                verdicts[old_id] = v2
+                for i, r in enumerate(rows):
+                    if r["id"] == old_id:
+                        rows[i] = dict(r2, id=old_id)
+                        recs[i] = dict(rec2, id=old_id)
     tally.add(source, rows, recs, verdicts, res)
     log(f"[c01] {name}: {len(rows)} programs, observe {t1 - t:.0f}s, TLC {res.wall:.0f}s, "
         f"{sum(v['n'] for v in verdicts.values())} nodes")
@@ -255,6 +275,17 @@ def witness_known(tally, d):
 
 
 def run(tier):
+    try:
+        return run_checked(tier)
+    except SystemExit:
+        raise
+    except Exception:
+        import traceback
+        log(traceback.format_exc())
+        tool_failure("c01.py failed")
+
+
+def run_checked(tier):
     t0 = time.time()
     d = outdir(PID)
     build_harness()
@@ -266,8 +297,6 @@ def run(tier):
         tool_failure(f"feature corpus missing ({len(corpus)} programs in {CORPUS})")
     check_group(tally, d, "corpus", "corpus", corpus, 3_000_000, profile=True)
     missing = sorted(REQUIRED_RULES - tally.rules)
-    if missing:
-        tool_failure(f"vacuity: evaluation rules never exercised by the corpus: {missing}")
     rules = sorted(tally.rules)
     witness_known(tally, d)
     # 2. the repository's test programs (one wrapper per test class; AllTests itself in the thorough tier)
@@ -275,7 +304,7 @@ def run(tier):
     check_group(tally, d, "repo", "repo", repo[1:] if quick else repo, 2_000_000 if quick else 30_000_000)
     # 3. generated programs
     gen_note = None
-    n_gen = 150 if quick else 2500
+    n_gen = 150 if quick else 10000
     profiles = ["mixed", "loops", "enums", "closures", "strings"]
     if have_generator():
         per = n_gen // len(profiles)
@@ -311,6 +340,8 @@ def run(tier):
                     "programs stay out of recorded regions: non-ASCII text, ints beyond 31 bits in Vec, \"\".toInt()",
                     "a program whose compilation crashes has no WebAssembly run to judge (counted as no_artefact; C03's subject)"],
                    time.time() - t0, fails)
+    if missing and not fails:
+        tool_failure(f"vacuity: evaluation rules never exercised by the corpus: {missing}")
     if evaluator_undecided > max(2, tally.accepted // 50):
         tool_failure(f"the evaluator could not decide {evaluator_undecided} programs (stuck / unsupported)")
     return 1 if fails else 0
